@@ -60,10 +60,20 @@ AG_DEFAULT = dict(enc=1, blocking=False, init_pos=None, init_health=None, moving
                   view_range=0)
 
 
+def aid(i):
+    """id of the i-th agent of a generated world; deliberately not in lexicographic order (see stub_sim.py)"""
+    return f"{'zwxbyvcuat'[int(i) % 10]}{int(i)}"
+
+
+def aidx(agent_id):
+    return int(agent_id[1:])
+
+
 def make_agent(i, a):
     a = {**AG_DEFAULT, **a}
     cls = agent_class(a["moving"], a["attacking"], a["has_ammo"], a["has_orient"], a["observing"])
-    kw = dict(id=f"a{i}", encoding=a["enc"], blocking=a["blocking"])
+    # ids deliberately not in lexicographic order (see stub_sim.py)
+    kw = dict(id=aid(i), encoding=a["enc"], blocking=a["blocking"])
     if a["init_pos"] is not None:
         kw["initial_position"] = np.array(a["init_pos"])
     if a["init_health"] is not None:
